@@ -6,27 +6,32 @@ def plan(ctx):
     U = real_crc_units() + ["ref_format", "xor_eq"]
     names = {2: "encode", 3: "decode", 4: "reconstruct", 5: "fragments_needed", 6: "metadata-validation-cleanup-queries"}
     inst = [(RS, 2, 1, 1)] + ([(XOR, 3, 3, 3), (ISAV, 2, 1, 1)] if thorough else [])
+    INT_MAX = 2147483647
     for be, k, m, hd in inst:
-        for mode in (2, 3, 4, 5, 6):
-            for excl in ((0, 1) if mode == 4 else (0,)):
-                defs = dict(BE=be, K=k, M=m, HD=hd, MODE=mode)
-                if excl: defs["EXCL_DEST"] = None
-                obs.append(Ob(id=f"args-{names[mode]}-{BNAME[be]}{k}_{m}" + ("-excl-dest" if excl else ""), harness="c13.c", defs=defs, units=U, unwind=max(8, k + m + 3),
-                              unwindset=dict({f"main.{i}": 90 for i in range(12)}, **{"ref_header.0": 84, "crc_run.0": 84, "crc_run.1": 84, "crc32.0": 84, "crc32.1": 84}),
-                              flags=["--memory-leak-check"], timeout=1200, mem_gb=6,
-                              sample={"symbolic": "descriptor (live/unknown), every pointer argument (valid/NULL), counts, lengths, destination", "api": names[mode], "instance": [BNAME[be], k, m],
-                                      "excluded_input": "destination outside 0..k+m-1 (listed finding)" if excl else None},
-                              targets=["liberasurecode_" + names[mode]] if mode < 6 else ["liberasurecode_get_fragment_metadata", "liberasurecode_verify_stripe_metadata", "is_invalid_fragment",
-                                       "liberasurecode_encode_cleanup", "liberasurecode_decode_cleanup", "liberasurecode_instance_destroy", "liberasurecode_backend_available"]))
-    # create with a symbolic shape box (back ends whose init is cheap for a symbolic shape)
-    for be, nm in ((XOR, "xor"), (NULL, "null")):
-        obs.append(Ob(id=f"create-box-{nm}", harness="c13.c", defs=dict(BE=be, K=3, M=3, HD=3, MODE=1, FIXED_ID=None), units=U, unwind=8, flags=["--memory-leak-check"], timeout=1200, mem_gb=6,
-                      sample={"symbolic": "(k,m) in [-1,33]^2, hd in [0,7], args pointer valid/NULL, id in {this back end, absent back ends, ids >= EC_BACKENDS_MAX}"},
-                      targets=["liberasurecode_instance_create", "init_xor_hd_code" if be == XOR else "null_init"]))
+        n = k + m
+        variants = []
+        for mode in (2, 5, 6):
+            variants.append((mode, {}, ""))
+        for var in (0, 1, 2):
+            variants.append((3, {"VAR": var}, f"-var{var}"))
+        for var in (0, 1):
+            variants.append((4, {"VAR": var}, f"-var{var}"))
+        for dv in (-1, n, n + 1, INT_MAX, -INT_MAX - 1):
+            variants.append((4, {"VAR": 3, "DESTV": f"({dv})"}, f"-dest{dv}"))
+        for mode, extra, suffix in variants:
+            defs = dict(BE=be, K=k, M=m, HD=hd, MODE=mode, **extra)
+            obs.append(Ob(id=f"args-{names[mode]}-{BNAME[be]}{k}_{m}{suffix}", harness="c13.c", defs=defs, units=U, unwind=max(8, k + m + 3),
+                          unwindset=dict({f"main.{i}": 90 for i in range(12)}, **{"ref_header.0": 84, "crc_run.0": 84, "crc_run.1": 84, "crc32.0": 84, "crc32.1": 84}),
+                          flags=["--memory-leak-check"], timeout=1200, mem_gb=6,
+                          sample={"symbolic": "descriptor (live/unknown), pointer arguments (valid/NULL), count or length", "api": names[mode], "instance": [BNAME[be], k, m], "variant": extra},
+                          targets=["liberasurecode_" + names[mode]] if mode < 6 else ["liberasurecode_get_fragment_metadata", "liberasurecode_verify_stripe_metadata", "is_invalid_fragment",
+                                   "liberasurecode_encode_cleanup", "liberasurecode_decode_cleanup", "liberasurecode_instance_destroy", "liberasurecode_backend_available"]))
     # enumerated boundary shapes for the matrix-based back ends: refused or survives a full cycle
-    refused = [(RS, 0, 1), (RS, -1, 2), (RS, 1, -1), (RS, 32, 1), (RS, 1, 32), (RS, 0, 0), (ISAV, 0, 2), (ISAV, 30, 3), (ISAC, -1, 1), (XOR, 0, 3), (XOR, 4, 3), (NULL, 0, 1)]
-    for be, k, m in refused:
-        obs.append(Ob(id=f"refuse-{BNAME[be]}{k}_{m}", harness="c13_cycle.c", defs=dict(BE=be, K=k, M=m, HD=(3 if be == XOR else max(m, 0)), EXPECT_REFUSED=None), units=U, unwind=8,
+    refused = [(RS, 0, 1), (RS, -1, 2), (RS, 1, -1), (RS, 32, 1), (RS, 1, 32), (RS, 0, 0), (RS, 17, 16), (ISAV, 0, 2), (ISAV, 30, 3), (ISAC, -1, 1), (ISAC, 0, 0), (XOR, 0, 3), (XOR, 4, 3), (XOR, 16, 6), (XOR, 11, 5), (XOR, 3, 3, 4), (XOR, 21, 6, 4), (XOR, 5, 5, 2), (XOR, 6, 4), (NULL, 0, 1), (NULL, -1, 1), (NULL, 20, 13)]
+    for ent in refused:
+        be, k, m = ent[:3]
+        hd = ent[3] if len(ent) > 3 else (3 if be == XOR else max(m, 0))
+        obs.append(Ob(id=f"refuse-{BNAME[be]}{k}_{m}_{hd}", harness="c13_cycle.c", defs=dict(BE=be, K=k, M=m, HD=hd, EXPECT_REFUSED=None), units=U, unwind=8,
                       flags=["--memory-leak-check"], timeout=900, mem_gb=6, sample={"shape": [BNAME[be], k, m], "expect": "refused"}, targets=["liberasurecode_instance_create"]))
     accepted = [(RS, 1, 1, 1), (RS, 1, 0, 0), (RS, 3, 2, 2), (ISAV, 1, 0, 0), (ISAV, 5, 3, 3), (ISAC, 1, 1, 1), (XOR, 3, 3, 3), (XOR, 5, 5, 4), (ISAV, 28, 4, 4), (ISAC, 31, 1, 1)] + \
                ([(RS, 10, 4, 4), (RS, 31, 1, 1), (RS, 1, 31, 31), (XOR, 20, 6, 4), (XOR, 15, 6, 3), (ISAV, 16, 16, 16), (ISAV, 1, 31, 31)] if thorough else [])
@@ -38,6 +43,7 @@ def plan(ctx):
                       targets=["liberasurecode_instance_create", "liberasurecode_encode", "liberasurecode_decode", "liberasurecode_instance_destroy"]))
     return {"obs": obs,
             "assumptions": ["allocation failure is out of scope (--no-malloc-may-fail)", "decode: fragment_len is either < 80 or the true length; num_fragments <= the number of fragments actually supplied",
-                            "reconstruct with a length below 80 and fragments present is not judged (the function has no length parameter check and the statement lists it only for decode-like length use)",
-                            "matrix-based back ends: boundary shapes are enumerated (a symbolic k makes the matrix construction unbounded for symbolic execution)"],
+                            "decode/reconstruct: one category of invalid argument per query (descriptor/pointer combinations symbolic together; count; length; destination), the remaining arguments valid and concrete",
+                            "reconstruct with a fragment length below 80 is executed for memory safety but its return code is not judged (the function has no length check; the copy is bounded by the given length)",
+                            "instance_create: boundary and unsupported shapes are enumerated (a symbolic (k,m,hd) through the public create ran out of memory at 16 GB); the whole unsupported (k,m,hd) box for flat-XOR is decided at init_xor_hd_code level in C05"],
             "trusted": ENV_TRUST + GF_TRUST + ISAL_TRUST + ZCRC_TRUST}
